@@ -504,6 +504,13 @@ class Builder:
                 return v[1][i]
             except IndexError:
                 pass
+        if isinstance(v, tuple) and v[0] == "record" and isinstance(i, int):
+            ci = self.prog.classes.get(v[1])
+            if ci is not None and any(b.split(".")[-1] == "NamedTuple" for b in self.prog.external_bases(ci)):
+                order = [f.name for f in self.prog.dataclass_fields(ci)]
+                d = dict(v[2])
+                if 0 <= i < len(order) and order[i] in d:
+                    return d[order[i]]
         if isinstance(v, tuple) and v[0] == "ite":
             # distribute unpacking over a selection of tuples
             a, b = v[2], v[3]
